@@ -117,7 +117,8 @@ class RustDefs:
     def _scan(self, path, root):
         src = strip_comments(open(path).read())
         mod = module_of(path, root)
-        for m in re.finditer(r'\btype\s+([A-Za-z_][A-Za-z0-9_]*)\s*(<[^>=]*>)?\s*=\s*([^;]+);', src):
+        # module-level aliases only (associated types inside impl blocks are indented)
+        for m in re.finditer(r'(?m)^(?:pub(?:\([^)]*\))?\s+)?type\s+([A-Za-z_][A-Za-z0-9_]*)\s*(<[^>=]*>)?\s*=\s*([^;]+);', src):
             gens = [g.strip() for g in m.group(2)[1:-1].split(',')] if m.group(2) else []
             self.aliases[mod + '::' + m.group(1)] = (gens, _clean_type(m.group(3)))
         for m in re.finditer(r'\b(enum|struct)\s+([A-Za-z_][A-Za-z0-9_]*)\s*(<[^>{(;]*>)?\s*(where[^{;]*)?([{(;])', src):
@@ -204,6 +205,9 @@ class RustDefs:
                 ex = [k for k in hit if k == suf]
                 if ex:
                     return table[ex[0]]
+        if len(segs) > 1:
+            # a qualified path none of whose suffixes matched names a type defined elsewhere
+            return None
         if len(cands) == 1:
             return table[cands[0]]
         # std prelude names
